@@ -11,8 +11,8 @@ RULE = ("cases: operation scripts on the real TxGraph (MakeTxGraph with max_clus
         "limit +-1, individually oversized, equal feerates, negative and 2^51 fees), AddDependency (chains, diamonds, late "
         "dependencies merging clusters to the limit +-1), RemoveTransaction (middle of a chain, with all descendants / all "
         "ancestors, arbitrary), SetTransactionFee, Ref destruction (also while staging exists), StartStaging / CommitStaging / "
-        "AbortStaging interleaved with queries on both levels, Trim, DoWork; mutations are batched without queries in a quarter "
-        "of the scripts (so that removals overtake pending dependencies). After every `q` step the driver calls SanityCheck and "
+        "AbortStaging interleaved with queries on both levels, Trim, DoWork; mutations are batched without queries in a fifth "
+        "of the scripts (so that removals overtake pending dependencies), another fifth uses one feerate for all transactions. After every `q` step the driver calls SanityCheck and "
         "prints for main and staging: GetTransactionCount, IsOversized, Exists for every id, GetIndividualFeerate, and when not "
         "oversized GetAncestors / GetDescendants / GetCluster of every transaction, CountDistinctClusters / GetAncestorsUnion / "
         "GetDescendantsUnion of given subsets, GetMainChunkFeerate, the full CompareMainOrder matrix, a BlockBuilder walk, a "
